@@ -132,11 +132,15 @@ Section Publish3.
     assert (Hutf : valid_utf8_impl topic = Ok true).
     { apply wf_str_accepted. unfold wf_str. rewrite Hu, Hc. cbn. lia. }
     unfold b, publish3. cbn [dec_inv]. unfold oprops_inv. rewrite Hv5.
-    repeat split; try assumption; try reflexivity.
-    - unfold istr_ok, impl_utf8. rewrite Hutf. lia.
-    - unfold impl_name. rewrite name_decoder_partial; [|assumption|destruct topic; [congruence|reflexivity]].
-      unfold spec_topic_name, valid_name_spec. rewrite Hu, Hw. destruct topic; [congruence|reflexivity].
-    - unfold pub_topic_ok. destruct topic; [congruence|reflexivity].
+    split; [reflexivity|]. split; [assumption|]. split; [assumption|].
+    split; [unfold istr_ok, impl_utf8; rewrite Hutf; lia|].
+    split.
+    { right. unfold impl_name. rewrite name_decoder_exact by assumption.
+      unfold spec_topic_name, valid_name_spec. rewrite Hu, Hw. destruct topic; [congruence|reflexivity]. }
+    split; [assumption|]. split; [assumption|].
+    split; [intros Hq0; specialize (Hp1 Hq0); lia|].
+    split; [reflexivity|].
+    unfold pub_topic_ok. destruct topic; [congruence|reflexivity].
   Qed.
 
   (* the decoder of pkg/packets reads the specification encoder's bytes back to the same value *)
